@@ -66,15 +66,15 @@ func (a AssertResponse) Process(resp *http.Response, body io.Reader) (map[string
 					t:       "size",
 				}
 			}
-		case "lt", "<":
-			if a.Size.Val < len(b) {
+		case "lt", "<": // strictly less: a body of exactly val bytes is not smaller than val
+			if a.Size.Val <= len(b) {
 				return nil, &errAssert{
 					pattern: pattern,
 					t:       "size",
 				}
 			}
-		case "gt", ">":
-			if a.Size.Val > len(b) {
+		case "gt", ">": // strictly greater
+			if a.Size.Val >= len(b) {
 				return nil, &errAssert{
 					pattern: pattern,
 					t:       "size",
